@@ -342,11 +342,18 @@ def rule_wiring(chk):
                detail_bad='update_particle_arrays does not call set_array for every array', detail_ok='set_array for every array')
     # known types for both prefixes
     kt = M.find_func(ah, 'get_known_types_for_arrays')
-    src = U(kt)
-    chk.decide("result['s_' + arr] = known_type" in src and "result['d_' + arr] = known_type" in src and "KnownType(c_type + '*')" in src,
-               'pointer-wiring', 'known-types', node=kt, file=AH, func='get_known_types_for_arrays',
-               detail_bad='array types are not declared for both the s_ and d_ name with the carray C type', detail_ok='s_/d_ pointers of the carray element type')
-
+    try:
+        it = EM.interpreter()
+        res = EM.call_function(it, AH, 'get_known_types_for_arrays', {'DoubleArray': ['x', 'h'], 'UIntArray': ['gid']})
+        ok = isinstance(res, dict) and sorted(res) == ['d_gid', 'd_h', 'd_x', 's_gid', 's_h', 's_x'] and all(res['s_' + n] is res['d_' + n] for n in ('x', 'h', 'gid'))
+        keys = dict((k, A.key_of(v)) for k, v in res.items()) if isinstance(res, dict) else res
+        ok = ok and all('get_c_type' in A.key_of(res[k]) and '*' in A.key_of(res[k]) for k in res) and \
+            'DoubleArray' in keys['d_x'] and 'UIntArray' in keys['d_gid'] and 'UIntArray' not in keys['d_x']
+        chk.decide(ok, 'pointer-wiring', 'known-types', node=kt, file=AH, func='get_known_types_for_arrays',
+                   detail_bad='for {DoubleArray: [x, h], UIntArray: [gid]} the declared types are %s: both the s_ and the d_ name of an array must be a pointer to the element type of its own carray class' % keys,
+                   detail_ok='s_/d_ pointers of the carray element type')
+    except (A.Unsupported, A.Raised) as e:
+        chk.undecided('pointer-wiring', 'known-types', node=kt, file=AH, func='get_known_types_for_arrays', detail='not interpretable: %s' % e)
 
 def model_group(it):
     """a CythonGroup with two model equations, one vector / one float / one int in its context and one precomputed symbol"""
@@ -427,8 +434,13 @@ def rule_init(chk):
                file=AH, func='setup_compiled_module', detail_bad='the list passed as `equations` is not all_group.equations (indices would not match)',
                detail_ok='all_group.equations')
     ki = M.find_func(h, 'get_kernel_init')
-    chk.decide("'self.kernel = %s(**kernel.__dict__)' % object.kernel.__class__.__name__" in U(ki), 'equation-recreation', 'kernel', node=ki, file=AH,
-               func='get_kernel_init', detail_bad='kernel is not re-created from kernel.__dict__', detail_ok='Kernel(**kernel.__dict__)')
+    try:
+        hm = EM.instance(it, AH, 'AccelerationEvalCythonHelper', object=EM.mock(kernel=EM.mock(__class__=EM.mock(__name__='QuinticSpline'))))
+        txt = EM.call(it, hm, 'get_kernel_init').strip()
+        chk.decide(txt == 'self.kernel = QuinticSpline(**kernel.__dict__)', 'equation-recreation', 'kernel', node=ki, file=AH, func='get_kernel_init',
+                   detail_bad='emits `%s`: the compiled kernel must be re-created from kernel.__dict__ with the class of the configured kernel' % txt, detail_ok='Kernel(**kernel.__dict__)')
+    except (A.Unsupported, A.Raised) as e:
+        chk.undecided('equation-recreation', 'kernel', node=ki, file=AH, func='get_kernel_init', detail='not interpretable: %s' % e)
     gc = M.find_func(cls, '_get_code')
     want = {'initialize': ['self.eq0.initialize(d_idx, d_x)'],
             'loop': ['self.eq0.loop(d_idx, s_idx, d_x, self.kernel, WIJ)', 'self.eq1.loop(d_idx, d_au, XIJ)'],
